@@ -101,3 +101,156 @@ Print Assumptions C10_any_pattern.
 Print Assumptions C10_roundtrip_histories.
 Print Assumptions C10_short_dst_panics.
 Print Assumptions C10_empty_noop.
+
+(* ================================================================== extension: the tie by translation.
+   tools/gotrans/c10.go translates net/CFB8/cfb8.go into Gen/C10gen.v on every run; Model/C10_interp.v
+   interprets the translated statements over an explicit memory in which dst and src are windows at any
+   offset from each other.  Proofs: C10_skel.v, C10_tie.v, C10_ext.v. *)
+From Coq Require Import ZArith String Bool.
+Local Open Scope bool_scope.
+From GoMC Require Import Base.GoInt Model.C10_syntax Gen.C10gen Model.C10_interp.
+From GoMC Require Import Proofs.C10_expected Proofs.C10_skel Proofs.C10_tie Proofs.C10_ext Proofs.C10_tie_slow.
+
+(* the source is what was modelled: statement kinds, order, constants and expression texts of XORKeyStream and
+   xorKeyStream; bodies and signatures of the constructors; the fields of CFB8; and what the interpreter
+   (and the extracted driver) runs is the translation *)
+Theorem C10_source_shape :
+  map shape C10gen.XORKeyStream = expected_XORKeyStream /\
+  map shape C10gen.xorKeyStream = expected_xorKeyStream /\
+  C10gen.cfb8_newCFB8 = expected_cfb8_newCFB8 /\
+  C10gen.cfb8_NewCFB8Encrypt = expected_cfb8_NewCFB8Encrypt /\
+  C10gen.cfb8_NewCFB8Decrypt = expected_cfb8_NewCFB8Decrypt /\
+  C10gen.cfb8_struct = expected_cfb8_struct /\
+  XKS = map notext C10gen.XORKeyStream /\ SLOW = map notext C10gen.xorKeyStream.
+Proof.
+  exact (conj XORKeyStream_skel_ok (conj xorKeyStream_skel_ok (conj (proj1 newCFB8_skel_ok)
+        (conj (proj1 NewCFB8Encrypt_skel_ok) (conj (proj1 NewCFB8Decrypt_skel_ok) (conj struct_skel_ok
+        (conj XKS_is_translation SLOW_is_translation))))))).
+Qed.
+
+(* newCFB8: the translated make length is three times the IV length *)
+Theorem C10_new_len : forall n : Z, (0 <= n < 2 ^ 61)%Z -> c10_newCFB8_make_len n = (3 * n)%Z.
+Proof. exact tie_make_len. Qed.
+
+(* the ring-buffer step of the hand model IS the interpretation of the translated loop body of xorKeyStream:
+   for every ring position, every content and length of the iv buffer (panics included), every source byte,
+   both directions, iteration k of a loop over a source a and destination d in the flat memory *)
+Theorem C10_interp_step : forall (E : list N -> list N) (fuel : nat) (call : callee -> slc -> slc -> st -> outcome)
+    (m : Z -> N) (ivl : list N) (p : nat) (de : bool) (k : Z) (v : N) (d a : slc) (ppb0 tp0 : Z) (ct ivs : slc),
+  (Z.of_nat p < 2 ^ 62)%Z ->
+  sl_sp d = Arena -> sl_sp a = Arena -> (0 <= k < sl_len a)%Z -> (0 <= k < sl_len d)%Z -> m (sl_off a + k)%Z = v ->
+  run_block (exec E false fuel call) slow_body (body_state m ivl p 16 de k v d a ppb0 tp0 ct ivs)
+  = match step E de {| iv := ivl; pos := p |} v with
+    | None => OPanic
+    | Some (s', o) =>
+        ONormal (mkst (upd m (sl_off d + k)%Z o) (iv s') (Z.of_nat (pos s')) 16%Z de
+                      (mkloc k (Z.of_nat (p + 16)) (Z.land (Z.of_nat (p + 16)) 31) o d a ct ivs))
+    end.
+Proof. exact interp_body_is_step. Qed.
+(* the same for any block size n > 0 (stepn: Model/C10_interp.v; step = stepn 16 by computation) *)
+Theorem C10_interp_stepn : forall (E : list N -> list N) (fuel : nat) (call : callee -> slc -> slc -> st -> outcome)
+    (m : Z -> N) (ivl : list N) (p n : nat) (de : bool) (k : Z) (v : N) (d a : slc) (ppb0 tp0 : Z) (ct ivs : slc),
+  0 < n -> (Z.of_nat p < 2 ^ 62)%Z -> (Z.of_nat n < 2 ^ 62)%Z ->
+  sl_sp d = Arena -> sl_sp a = Arena -> (0 <= k < sl_len a)%Z -> (0 <= k < sl_len d)%Z -> m (sl_off a + k)%Z = v ->
+  run_block (exec E false fuel call) slow_body (body_state m ivl p n de k v d a ppb0 tp0 ct ivs)
+  = match stepn E n de {| iv := ivl; pos := p |} v with
+    | None => OPanic
+    | Some (s', o) =>
+        ONormal (mkst (upd m (sl_off d + k)%Z o) (iv s') (Z.of_nat (pos s')) (Z.of_nat n) de
+                      (mkloc k (Z.of_nat (p + n)) (Z.land (Z.of_nat (p + n)) (2 * Z.of_nat n - 1)) o d a ct ivs))
+    end.
+Proof. exact interp_body_is_stepn. Qed.
+
+(* the whole slow path: interpreting the translated xorKeyStream (dst = dst[:len(src)] and the range loop) on a
+   source a whose bytes are src and a destination d that starts where a starts (in place) or shares no byte
+   with it gives exactly the hand model: same panics; otherwise the model's outputs stored at d[0..len src)
+   and nowhere else, the model's iv buffer and ivPos; the caller's locals untouched.  Any block size n > 0
+   (slown; Model/C10.v's slow is slown 16, C10_slow_is_slown16) *)
+Theorem C10_interp_slow : forall (E : list N -> list N) (fuel n : nat) (de : bool) (d a : slc) (src : list N)
+    (m : Z -> N) (ivl : list N) (p : nat) (lc : loc),
+  0 < n -> (Z.of_nat n < 2 ^ 62)%Z -> sl_sp d = Arena -> sl_sp a = Arena ->
+  (sl_off d = sl_off a \/ sl_off d + sl_len a <= sl_off a \/ sl_off a + sl_len a <= sl_off d)%Z ->
+  lenZ src = sl_len a -> (sl_len a <= sl_len d)%Z -> (sl_len d <= sl_cap d)%Z ->
+  (Z.of_nat p + lenZ src < 2 ^ 62)%Z ->
+  (forall j, j < List.length src -> m (sl_off a + Z.of_nat j)%Z = nth j src 0%N) ->
+  interp_slow E false fuel d a (mkst m ivl (Z.of_nat p) (Z.of_nat n) de lc)
+  = match slown E n de {| iv := ivl; pos := p |} src with
+    | None => OPanic
+    | Some (s', outs) =>
+        ONormal (mkst (wr_mem m (sl_off d) outs) (iv s') (Z.of_nat (pos s')) (Z.of_nat n) de lc)
+    end.
+Proof. exact interp_slow_is_slown. Qed.
+Theorem C10_slow_is_slown16 : forall (E : list N -> list N) (de : bool) (src : list N) (s : state),
+  slow E de s src = slown E 16 de s src.
+Proof. exact slow_is_slown16. Qed.
+
+(* the two pointer tests of XORKeyStream as translated, inside the address range (no wrap):
+   fast path iff more than two blocks and (dst starts >= b bytes before src, or src ends before dst);
+   on the fast path the batched branch is taken iff decrypting and dst starts delta bytes before src with
+   b <= delta <= len(src) - b - 1, i.e. ONLY for a partial overlap *)
+Theorem C10_fast_test : forall L b D Ld S : Z,
+  (0 < L <= Ld -> 0 <= b < 2 ^ 62 -> 0 <= D -> 0 <= S -> D + Ld < 2 ^ 63 -> S + L < 2 ^ 63 ->
+   c10_XORKeyStream_cond_2 L b D Ld S = Some ((2 * b <? L) && ((D + b <=? S) || (S + L <=? D))))%Z.
+Proof. exact tie_fast_test. Qed.
+Theorem C10_batched_guard : forall de L b D Ld S : Z,
+  (0 < L <= Ld -> 0 < b < 2 ^ 62 -> 0 <= D -> 0 <= S -> D + Ld < 2 ^ 63 -> S + L < 2 ^ 63 ->
+   c10_XORKeyStream_cond_2 L b D Ld S = Some true ->
+   c10_XORKeyStream_cond_4 de (D + b) (L - b) (L - b) (S + b)
+   = Some (negb (de =? 0) && (b <=? S - D) && (S - D <=? L - b - 1)))%Z.
+Proof. exact batched_reached_iff. Qed.
+(* dst == src exactly never reaches the fast path (hence never the batched branch) *)
+Theorem C10_exact_overlap_slow : forall L b D Ld : Z,
+  (0 < L <= Ld -> 0 < b < 2 ^ 62 -> 0 <= D -> D + Ld < 2 ^ 63 ->
+   c10_XORKeyStream_cond_2 L b D Ld D = Some false)%Z.
+Proof. exact exact_overlap_is_slow. Qed.
+(* no common byte: fast path iff more than two blocks, and then the plain loop *)
+Theorem C10_disjoint_plain : forall de L b D Ld S : Z,
+  (0 < L <= Ld -> 0 < b < 2 ^ 62 -> 0 <= D -> 0 <= S -> D + Ld < 2 ^ 63 -> S + L < 2 ^ 63 ->
+   D + Ld <= S \/ S + L <= D ->
+   c10_XORKeyStream_cond_2 L b D Ld S = Some (2 * b <? L) /\
+   (2 * b < L -> c10_XORKeyStream_cond_4 de (D + b) (L - b) (L - b) (S + b) = Some false))%Z.
+Proof. exact disjoint_is_plain. Qed.
+
+(* partial overlap is NOT transformed correctly (the cipher.Stream contract excludes it): the batched branch
+   on a decrypter with dst 20 bytes before src, and the slow path with src 5 bytes before dst *)
+Theorem C10_batched_partial_overlap_refuted :
+  exists out, wit_result true wit_batched = Some out /\ out <> wit_expected true wit_batched.
+Proof. exact batched_partial_overlap_refuted. Qed.
+Theorem C10_slow_partial_overlap_refuted :
+  forall de, exists out, wit_result de wit_behind = Some out /\ out <> wit_expected de wit_behind.
+Proof. exact slow_partial_overlap_refuted. Qed.
+
+(* a cipher with BlockSize() = 8: the same ring on a 24-byte buffer; one step and any slow-path source *)
+Theorem C10_step8 : forall (E : list N -> list N) (de : bool) (s : state) (v : N) (reg : list N),
+  Inv8 s reg ->
+  exists s', stepn E 8 de s v = Some (s', N.lxor v (ks E reg))
+          /\ Inv8 s' (Model.C10.shift reg (if de then v else N.lxor v (ks E reg))).
+Proof. exact step8_ok. Qed.
+Theorem C10_slow8 : forall (E : list N -> list N) (de : bool) (src : list N) (s : state) (reg : list N),
+  Inv8 s reg ->
+  exists s', slown E 8 de s src = Some (s', cfb E de reg src)
+          /\ Inv8 s' (reg_after reg (if de then src else cfb E de reg src)).
+Proof. exact slow8_ok. Qed.
+
+(* non-vacuity: the witness layout does reach the batched branch; an 8-byte IV satisfies Inv8 *)
+Example C10_ex_batched_reached :
+  c10_XORKeyStream_cond_2 50 16 base_addr 50 (base_addr + 20) = Some true /\
+  c10_XORKeyStream_cond_4 1 (base_addr + 16) 34 34 (base_addr + 36) = Some true.
+Proof. exact wit_batched_reaches_branch. Qed.
+Example C10_ex_inv8 : Inv8 (new_state (map N.of_nat (seq 1 8))) (map N.of_nat (seq 1 8)).
+Proof. exact (Inv8_new (fun x => x) (map N.of_nat (seq 1 8)) eq_refl). Qed.
+
+Print Assumptions C10_source_shape.
+Print Assumptions C10_new_len.
+Print Assumptions C10_interp_step.
+Print Assumptions C10_interp_stepn.
+Print Assumptions C10_interp_slow.
+Print Assumptions C10_slow_is_slown16.
+Print Assumptions C10_fast_test.
+Print Assumptions C10_batched_guard.
+Print Assumptions C10_exact_overlap_slow.
+Print Assumptions C10_disjoint_plain.
+Print Assumptions C10_batched_partial_overlap_refuted.
+Print Assumptions C10_slow_partial_overlap_refuted.
+Print Assumptions C10_step8.
+Print Assumptions C10_slow8.
